@@ -480,6 +480,14 @@ class Harness:
         b._live = live
         return set(live[0][H[1]]) | set(live[1])
 
+    def strict_live(self, H):
+        """Locals that are read before being written on some path from the head (address-taken locals not added)."""
+        from .. import cfg as _cfg
+        b = self.body_of(H)
+        live = getattr(b, "_live", None) or _cfg.liveness(b)
+        b._live = live
+        return set(live[0][H[1]])
+
     def variant_locals(self, H):
         """Locals of the loop's own frame that the loop can change and that are live at its head."""
         from .. import loops as L_
@@ -976,244 +984,325 @@ def phase_pc(phase):
 
 
 def r5_small(facts, rep, names):
-    rep.rule("C08-R5", "small-fraction form (|x| < 1), as a transducer checked by bisimulation with the reference machine LEAD -> "
-                       "{SCI1 -> SCI2 | PLAIN}: from every reachable pair (flag state of the code, phase) and an arbitrary budget n, "
-                       "exponent e and remainder R, one turn of the loop either leaves without pulling a digit (n = 0, or R = 0), or "
-                       "pulls exactly one digit d and: LEAD, d = 0: e := e - 1, prints nothing, n unchanged; LEAD, d != 0: prints the "
-                       "sign, then d alone if -e >= exponent_limit (scientific) or '0.' followed by one '0' per integer in e..-1 and d "
-                       "(plain, e := 0), n := n - 1; SCI1: prints '.' d; SCI2 / PLAIN: prints d; n := n - 1.  No pulled digit is "
-                       "dropped.  At the end the mark is printed iff the current remainder is non-zero (and show_continuation) and then "
-                       "'e' exponent iff the exponent is non-zero.  The value read back is therefore the truncation of x at the last "
-                       "printed digit")
+    rep.rule("C08-R5", "small-fraction form (|x| < 1), as a transducer checked by product bisimulation with the reference machine LEAD "
+                       "-> {SCI1 -> SCI2 | PLAIN}, whatever the loop structure: every loop head is a stop point; from every reachable "
+                       "triple (loop, finite code state, phase) with an arbitrary budget n, exponent e and remainder R, the segment to "
+                       "the next stop either pulls no digit, or pulls one digit d under n > 0 and R != 0, and the reference machine, fed "
+                       "with the pulled digit, prescribes what the segment prints: LEAD, d = 0: e := e - 1, nothing; LEAD, d != 0: the "
+                       "sign, then d alone if -e >= exponent_limit (scientific) or '0.', one '0' per integer in e..-1 (a padding loop is "
+                       "checked by its own induction) and d (plain, e := 0), n := n - 1; SCI1: '.' d; SCI2 / PLAIN: d; n := n - 1.  At "
+                       "the end the mark is printed iff the remainder left by the last printed digit is non-zero (and "
+                       "show_continuation), then 'e' exponent iff the exponent is non-zero")
     h = names.get("fmt_harness")
     segs0 = names.get("fmt_segs")
     body = facts.fn(FMT)
     if h is None or segs0 is None:
         rep.ob("C08-R5", "anchor:prologue", False, "the dispatch summary (C08-R3) is missing")
         return
-    heads = h.heads
-    if not rep.ob("C08-R5", "anchor:loops", len(heads) == 2, "the small-fraction form has a digit loop and a zero-padding loop (%d loop heads)" % len(heads), body.site()):
+    entry = [s_ for s_ in segs0 if s_.kind == "stop"]
+    if not rep.ob("C08-R5", "anchor:entry", len(entry) >= 1 and len({s_.end for s_ in entry}) == 1,
+                  "the small-fraction form is entered from the dispatch at one loop (%d paths)" % len(entry), body.site()):
         return
-    H1, H2 = heads
-    entry = [s_ for s_ in segs0 if s_.end == H1]
-    if not rep.ob("C08-R5", "anchor:entry", len(entry) >= 1, "the digit loop is entered from the dispatch (%d paths)" % len(entry), body.site()):
+    INT_TY = ("i32", "i64", "isize")
+    UNS_TY = ("usize", "u32", "u64")
+    SIGN_LOCALS = set()
+
+    def state_of(sg):
+        """(flags {local: finite value}, e-local, n-local, range local, generator ref, sign locals) at the loop where sg stopped."""
+        H = sg.end
+        F = sg.frame
+        b = sg.body
+        live = h.live_at(H)
+        strict = h.strict_live(H)
+        var = h.variant_locals(H)
+        flags, ints, uns, rng, gens, signs = {}, [], [], [], [], []
+        for l in sorted(live):
+            v = h.it.read_ref(sg.store, Ref(F, l))
+            if v is TOP:
+                continue
+            ty = b.local_ty(l).replace(" ", "")
+            if ty == "bool":
+                if (b.path, l) in SIGN_LOCALS:
+                    signs.append(l)
+                elif l in var:
+                    flags[l] = v
+            elif ty.startswith("std::option::Option<") and isinstance(v, Agg):
+                flags[l] = v
+            elif ty in INT_TY:
+                ints.append(l)
+            elif ty in UNS_TY:
+                uns.append(l)
+            elif isinstance(v, Agg) and (v.path == "std::ops::Range" or v.kind == "it:range") and l in var and l in strict:
+                rng.append(l)
+            if isinstance(v, Agg) and gen_of(v, h.it, sg.store) is not None:
+                gens.append(l)
+        return flags, ints, uns, rng, gens, signs
+
+    def fkey(flags):
+        out = []
+        for l, v in sorted(flags.items()):
+            if isinstance(v, Const):
+                out.append((l, bool(v.v)))
+            elif isinstance(v, Agg) and v.path == "std::option::Option":
+                out.append((l, "Some" if v.vi == 1 else "None"))
+            else:
+                out.append((l, "?"))
+        return tuple(out)
+
+    first = entry[0]
+    # the sign: the boolean that equals (x < 0) on every way into the form
+    for l in sorted(h.live_at(first.end)):
+        if first.body.local_ty(l) != "bool":
+            continue
+        vals_ = [(h.it.read_ref(e_.store, Ref(e_.frame, l)), e_.pc.get("is_negative(x)")) for e_ in entry]
+        if len({repr(v_) for v_, _ in vals_}) == 2 and all(isinstance(v_, Const) and bool(v_.v) == p_ for v_, p_ in vals_):
+            SIGN_LOCALS.add((first.body.path, l))
+    flags0, ints0, uns0, rng0, gens0, signs0 = state_of(first)
+    # drop-flag style constants that never change are not state
+    flags0 = {l: v for l, v in flags0.items() if l in h.variant_locals(first.end)}
+    okk = len(ints0) == 1 and len(uns0) == 1 and len(gens0) >= 1
+    if not rep.ob("C08-R5", "anchor:state", okk, "state at the first loop by type: flags %s, exponent %s, budget %s, generator %s" % (
+            sorted(flags0), ints0, uns0, gens0), body.site()):
         return
-    base = entry[0].store
-    live = h.live_at(H1)
-    vs = {l for l in h.variant_locals(H1) if l in live}
-    F1 = h.frame(H1)
-    flags = sorted(l for l in vs if h.ty(H1, l) == "bool")
-    ints = sorted(l for l in vs if h.ty(H1, l) in ("i32", "i64", "isize"))
-    uns = sorted(l for l in vs if h.ty(H1, l) in ("usize", "u32", "u64"))
-    its = [(l, v) for l, v in find_iters(h.it, base, frame=F1, live=live) if gen_of(v, h.it, base) is not None]
-    okk = len(ints) == 1 and len(uns) == 1 and len(its) == 1 and kind(its[0][1]) == "gen"
-    if not rep.ob("C08-R5", "anchor:state", okk, "loop state: flags %s, exponent %s, budget %s, generator %s" % (flags, ints, uns, [l for l, _ in its]), body.site()):
-        return
-    Le, Ln, Lit = ints[0], uns[0], its[0][0]
-    clos = gen_of(its[0][1], h.it, base)
+    F0 = first.frame
+    clos = gen_of(h.it.read_ref(first.store, Ref(F0, gens0[0])), h.it, first.store)
     rem_ref = clos.field(0)
-    den0 = h.it.read_ref(base, clos.field(1))
-    rem0 = h.it.read_ref(base, rem_ref)
-    init_ok = h.local(base, Le, F1) == Const(-1) and h.local(base, Ln, F1) == Sym("L") and same(rem0, X_REM, GRID_X) and same(den0, X_ABS_D, GRID_X) \
-        and all(isinstance(h.local(base, f_, F1), Const) for f_ in flags)
+    den0 = h.it.read_ref(first.store, clos.field(1))
+    rem0 = h.it.read_ref(first.store, rem_ref)
+    e0, n0_ = h.it.read_ref(first.store, Ref(F0, ints0[0])), h.it.read_ref(first.store, Ref(F0, uns0[0]))
+    init_ok = e0 == Const(-1) and n0_ == Sym("L") and same(rem0, X_REM, GRID_X) and same(den0, X_ABS_D, GRID_X)
     rep.ob("C08-R5", "entry", init_ok, "at the first turn: exponent %r (specified -1), budget %r (specified limit), generator over (%r, %r) (specified remainder, den)" % (
-        h.local(base, Le, F1), h.local(base, Ln, F1), rem0, den0), body.site())
-    negp = [b for p, b in entry[0].pc.items() if p == "is_negative(x)"]
+        e0, n0_, rem0, den0), body.site())
     if not init_ok:
         return
+    GRID_E = [{"e": Fraction(e), "X": Fraction(x)} for e in range(-6, 0) for x in range(1, 8)]
+    GRID_N = [{"n": Fraction(k)} for k in range(0, 5)]
+    GRID_EE = [{"e": Fraction(k)} for k in range(-5, 1)]
 
-    def seed(flagvals, phase):
-        st = dict(base)
-        for f_, v in zip(flags, flagvals):
-            st[(F1, f_)] = Const(v)
-        st[(F1, Le)] = E
-        st[(F1, Ln)] = N
+    def sci_pred(seg):
+        for p_, b_ in pc_of(seg.store):
+            rp = repr(p_)
+            if "X" in rp and "e" in rp and isinstance(p_, T):
+                try:
+                    eq, w = evalterm.sem_eq(p_, T("Ge", T("neg", E), Sym("X")), GRID_E)
+                except evalterm.Unrecognised:
+                    return b_, False
+                return b_, eq
+        return None, True
+
+    def merge(atoms):
+        out = []
+        for a in atoms:
+            if a[0] == "lit" and out and out[-1][0] == "lit":
+                out[-1] = ("lit", out[-1][1] + a[1])
+            else:
+                out.append(a)
+        return out
+
+    def same_atoms(got, want):
+        got, want = merge(got), merge(want)
+        return len(got) == len(want) and all(g[0] == w[0] and (same(g[1], w[1]) if g[0] == "val" else g[1] == w[1]) for g, w in zip(got, want))
+
+    # work items: (representative segment, flag key, phase, pending expected atoms after a padding loop, is-padding)
+    reps = {}
+    work = []
+
+    def push(sg, phase, pending=(), e_known_zero=False):
+        flags, ints, uns, rng, gens, signs = state_of(sg)
+        key = (sg.end, fkey(flags), phase, tuple(map(repr, pending)), bool(rng))
+        if key not in reps:
+            reps[key] = (sg, pending)
+            work.append(key)
+
+    push(first, "LEAD")
+    done = set()
+    n_seg = 0
+    phases_seen = set()
+    problems = {}
+    cases = {}
+    while work:
+        key = work.pop()
+        if key in done:
+            continue
+        done.add(key)
+        if len(done) > 60:
+            rep.ob("C08-R5", "bisimulation", False, "more than 60 (loop, code state, phase) triples: the code states do not correspond to the reference phases")
+            return
+        H, fk, phase, _, is_pad = key
+        sg0, pending = reps[key]
+        phases_seen.add(phase[4:] if phase.startswith("PAD>") else phase)
+        flags, ints, uns, rng, gens, signs = state_of(sg0)
+        F = sg0.frame
+        st = dict(sg0.store)
+        for l in ints[:1]:
+            st[(F, l)] = E
+        for l in uns[:1]:
+            st[(F, l)] = N
+        for l in signs:
+            st[(F, l)] = Sym("neg")
         st = h.it.write_ref(st, rem_ref, R)
         if isinstance(clos.field(1), Ref):
             st = h.it.write_ref(st, clos.field(1), D)
-        # neg is a local computed in the prologue: make it symbolic
-        for (k, v) in list(st.items()):
-            if len(k) == 2 and k[0] == 1 and isinstance(v, Const) and isinstance(v.v, bool) and (F1 != 1 or k[1] not in flags) and body.local_ty(k[1]) == "bool" and body.local_name(k[1]):
-                st[k] = Sym("neg")
-        return st, {"pc": phase_pc(phase)}
-
-    DIG = Q
-    GRID_E = [{"e": Fraction(e), "X": Fraction(x)} for e in range(-6, 0) for x in range(1, 8)]
-
-    def sci_pred(seg):
-        """The predicate choosing the scientific form on this path: (value, ok?)"""
-        for p, b in pc_of(seg.store):
-            rp = repr(p)
-            if "X" in rp and "e" in rp and isinstance(p, T):
-                try:
-                    eq, w = evalterm.sem_eq(p, T("Ge", T("neg", E), Sym("X")), GRID_E)
-                except evalterm.Unrecognised:
-                    return b, False
-                return b, eq
-        return None, True
-
-    init_flags = tuple(bool(h.local(base, f_, F1).v) for f_ in flags)
-    work = [(init_flags, "LEAD")]
-    seen = set()
-    n_steps = 0
-    exits = []
-    while work:
-        pair = work.pop()
-        if pair in seen:
-            continue
-        seen.add(pair)
-        if len(seen) > 24:
-            rep.ob("C08-R5", "bisimulation", False, "more than 24 (flag state, phase) pairs: the flag states do not correspond to the four phases")
-            return
-        fv, phase = pair
-        st, extra = seed(fv, phase)
-        bad = []
+        post = None
+        if phase.startswith("PAD>"):
+            post = phase[4:]
+            extra = {"pc": phase_pc("LEAD")}
+        else:
+            extra = {"pc": phase_pc(phase)}
+        if is_pad:
+            rl = rng[0]
+            rv = h.it.read_ref(st, Ref(F, rl))
+            st[(F, rl)] = Agg(rv.kind, rv.path, rv.vi, rv.vname, (Sym("a"), rv.field(1)))
+        label = "%s:%s@%s" % (phase, "".join(str(v)[0] for _, v in fk) or "-", "pad" if is_pad else "bb%d" % H[1])
+        bad = problems.setdefault(label, [])
+        kinds = cases.setdefault(label, set())
         try:
-            segs = h.run(start=(H1, st), extra=extra)
+            segs = h.run(start=(H, st), extra=extra)
         except core.Undecided as e:
-            rep.ob("C08-R5", "step:%s:%s" % (phase, "".join("T" if x else "F" for x in fv)), False, "undecided: %s" % e, body.site())
+            bad.append("undecided: %s" % e)
             continue
-        pending = [(s_, ()) for s_ in segs]
-        kinds = set()
-        while pending:
-            s_, pre = pending.pop()
-            n_steps += 1
+        for s_ in segs:
+            n_seg += 1
             if excused(s_):
                 continue
-            out = tuple(pre) + tuple(s_.out)
-            n_pos = find_pred(s_, T("Gt", N, Const(0)), [{"n": Fraction(k)} for k in range(0, 5)])
+            n_pos = find_pred(s_, T("Gt", N, Const(0)), GRID_N)
             z = s_.pc.get("is_zero(R)")
             rem_now = s_.store.get(("rem_now",), TOP)
             pulled = s_.pulled
-            if s_.end == H2:
-                # the zero padding: one turn of the inner loop from an arbitrary start a
-                kinds.add("pad")
-                rng = [(l, v) for l, v in find_iters(h.it, s_.store, frame=h.frame(H2), live=h.live_at(H2)) if isinstance(v, Agg) and v.path == "std::ops::Range"]
-                if len(rng) != 1 or rng[0][1].field(0) != E or rng[0][1].field(1) != Const(-1):
-                    bad.append("the zero padding runs over %s; specified e..-1" % (rng,))
+            out = list(s_.out)
+            sign = [("lit", "-")] if s_.pc.get("neg") else []
+            if is_pad:
+                # one turn of a zero-padding loop over a..-1
+                lt = find_pred(s_, T("Lt", Sym("a"), Const(-1)), [{"a": Fraction(k)} for k in range(-5, 1)])
+                if s_.end == H and lt is True:
+                    kinds.add("pad-turn")
+                    r2 = h.it.read_ref(s_.store, Ref(F, rng[0]))
+                    if out != [("lit", "0")] or pulled or not same(r2.field(0), T("+", Sym("a"), K(1)), [{"a": Fraction(k)} for k in range(-5, 0)]):
+                        bad.append("one turn of the zero padding prints %s, pulls %r, range start %r" % (describe_out(out), pulled, r2.field(0)))
                     continue
-                st2 = dict(s_.store)
-                st2[(h.frame(H2), rng[0][0])] = Agg(rng[0][1].kind, rng[0][1].path, rng[0][1].vi, rng[0][1].vname, (Sym("a"), Const(-1)))
-                keep_pc = tuple(pc_of(s_.store))
-                try:
-                    inner = h.run(start=(H2, st2), extra={"pc": keep_pc, ("pulled",): pulled, ("rem_now",): rem_now})
-                except core.Undecided as e:
-                    bad.append("zero padding undecided: %s" % e)
+                if lt is not False:
+                    bad.append("the zero padding is left on path %s" % s_.pc)
                     continue
-                for s2 in inner:
-                    lt = s2.pc.get("Lt(a, Const(-1))")
-                    if s2.end == H2:
-                        r2 = h.local(s2, rng[0][0])
-                        if lt is not True or s2.out != (("lit", "0"),) or r2.field(0) != T("i+", Sym("a"), Const(1)) or r2.field(1) != Const(-1):
-                            bad.append("one turn of the zero padding: prints %s, range %r (path %s)" % (describe_out(s2.out), r2, s2.pc))
-                        for l_ in flags + [Le, Ln]:
-                            if h.local(s2, l_) != h.local(s_, l_):
-                                bad.append("the zero padding changes the loop state")
-                    elif lt is False:
-                        pending.append((s2, out + (("pad", "0 x (e..-1)"),)))
-                    else:
-                        bad.append("zero padding: path %s ends in %s" % (s2.pc, s2.end))
-                continue
-            if s_.end == H1:
-                nf = tuple(h.local(s_, f_) for f_ in flags)
-                e2, n2 = h.local(s_, Le), h.local(s_, Ln)
-                if n_pos is not True or z is not False or len(pulled) != 1 or not same(pulled[0], DIG):
-                    bad.append("a turn continues without exactly one digit floor(10R/D) pulled under n > 0 and R != 0 (pulled %r, path %s)" % (pulled, s_.pc))
+                kinds.add("pad-exit")
+                want = list(pending)
+                nphase = post or phase
+                want_e, want_n = (K(0) if nphase == "PLAIN" else E), N
+            else:
+                if len(pulled) > 1:
+                    bad.append("a segment pulls %d digits" % len(pulled))
                     continue
-                if not same(rem_now, REM1) or rem_now != h.it.read_ref(s_.store, rem_ref):
-                    bad.append("after one turn the remainder is %r" % (rem_now,))
-                if not all(isinstance(x, Const) for x in nf):
-                    bad.append("flags become %r" % (nf,))
-                    continue
-                nfv = tuple(bool(x.v) for x in nf)
-                dz = None
-                for p, b in pc_of(s_.store):
-                    if isinstance(p, T) and p.op == "is_zero" and same(p.args[0], DIG):
-                        dz = b
-                dig = ("val", pulled[0])
-                sign = (("lit", "-"),) if s_.pc.get("neg") else ()
-                if phase == "LEAD":
-                    if dz is True:
-                        kinds.add("lead-zero")
-                        want_out, want_e, want_n, nphase = (), T("i-", E, Const(1)), N, "LEAD"
-                    elif dz is False:
-                        sp, sp_ok = sci_pred(s_)
-                        if not sp_ok or sp is None:
-                            bad.append("the scientific form is chosen by a test that is not -e >= exponent_limit (path %s)" % s_.pc)
-                            continue
-                        if s_.pc.get("neg") is None:
-                            bad.append("the first significant digit is printed without the sign having been consulted")
-                        if sp:
-                            kinds.add("lead-sci")
-                            want_out, want_e, want_n, nphase = sign + (dig,), E, T("i-", N, Const(1)), "SCI1"
-                        else:
-                            kinds.add("lead-plain")
-                            want_out, want_e, want_n, nphase = sign + (("lit", "0."), ("pad", "0 x (e..-1)"), dig), Const(0), T("i-", N, Const(1)), "PLAIN"
-                    else:
-                        bad.append("before the first significant digit a digit is used without being tested for zero")
+                want = []
+                nphase = phase
+                want_e, want_n = E, N
+                if pulled:
+                    d = pulled[0]
+                    if n_pos is not True or z is not False or not same(d, Q):
+                        bad.append("a digit is pulled without n > 0 and R != 0 having been tested (path %s)" % s_.pc)
                         continue
-                elif phase == "SCI1":
-                    kinds.add("sci1")
-                    want_out, want_e, want_n, nphase = (("lit", "."), dig), E, T("i-", N, Const(1)), "SCI2"
-                else:
-                    kinds.add(phase.lower())
-                    want_out, want_e, want_n, nphase = (dig,), E, T("i-", N, Const(1)), phase
-                # merge adjacent literals of the expectation the way the log does
-                merged = []
-                for a in want_out:
-                    if a[0] == "lit" and merged and merged[-1][0] == "lit":
-                        merged[-1] = ("lit", merged[-1][1] + a[1])
+                    if not same(rem_now, REM1):
+                        bad.append("after the pull the remainder is %r" % (rem_now,))
+                    dz = None
+                    for p_, b_ in pc_of(s_.store):
+                        if isinstance(p_, T) and p_.op == "is_zero" and same(p_.args[0], Q):
+                            dz = b_
+                    dig = ("val", d)
+                    if phase == "LEAD":
+                        if dz is True:
+                            kinds.add("lead-zero")
+                            want, want_e, want_n, nphase = [], T("-", E, K(1)), N, "LEAD"
+                        elif dz is False:
+                            sp, sp_ok = sci_pred(s_)
+                            if not sp_ok or sp is None:
+                                bad.append("the scientific form is chosen by a test that is not -e >= exponent_limit (path %s)" % s_.pc)
+                                continue
+                            if s_.pc.get("neg") is None:
+                                bad.append("the first significant digit is printed without the sign having been consulted")
+                            if sp:
+                                kinds.add("lead-sci")
+                                want, want_e, want_n, nphase = sign + [dig], E, T("-", N, K(1)), "SCI1"
+                            else:
+                                kinds.add("lead-plain")
+                                want, want_e, want_n, nphase = sign + [("lit", "0."), ("PAD",), dig], K(0), T("-", N, K(1)), "PLAIN"
+                        else:
+                            bad.append("before the first significant digit a digit is used without being tested for zero")
+                            continue
+                    elif phase == "SCI1":
+                        kinds.add("sci1")
+                        want, want_n, nphase = [("lit", "."), dig], T("-", N, K(1)), "SCI2"
                     else:
-                        merged.append(a)
-                got = []
-                for a in out:
-                    if a[0] == "lit" and got and got[-1][0] == "lit":
-                        got[-1] = ("lit", got[-1][1] + a[1])
-                    else:
-                        got.append(a)
-                okout = len(got) == len(merged) and all(g[0] == w[0] and (same(g[1], w[1]) if g[0] == "val" else g[1] == w[1]) for g, w in zip(got, merged))
-                if not okout:
-                    bad.append("%s, digit %s: prints %s; specified %s" % (phase, "= 0" if dz else ("!= 0" if dz is False else "any"), describe_out(got), describe_out(merged)))
-                e_ok = (e2 == want_e) or (want_e == E and phase == "PLAIN" and e2 == Const(0)) or (isinstance(want_e, T) and same(e2, T("-", E, K(1)), [{"e": Fraction(k)} for k in range(-5, 0)]))
-                if not e_ok:
-                    bad.append("%s: the exponent becomes %r; specified %r" % (phase, e2, want_e))
-                if n2 != want_n and not (isinstance(want_n, T) and same(n2, T("-", N, K(1)), [{"n": Fraction(k)} for k in range(1, 6)])):
-                    bad.append("%s: the budget becomes %r; specified %r" % (phase, n2, want_n))
-                work.append((nfv, nphase))
-            elif s_.end == "ret":
-                if n_pos is False:
+                        kinds.add(phase.lower())
+                        want, want_n = [dig], T("-", N, K(1))
+            # where does the segment end?
+            if s_.kind == "stop":
+                nflags, nints, nuns, nrng, ngens, nsigns = state_of(s_)
+                if nrng and any(a == ("PAD",) for a in want):
+                    # arrived at a padding loop: what was printed so far is the part before the padding
+                    k = want.index(("PAD",))
+                    if not same_atoms(out, want[:k]):
+                        bad.append("%s: before the zero padding %s is printed; specified %s" % (phase, describe_out(out), describe_out(want[:k])))
+                    rv = h.it.read_ref(s_.store, Ref(s_.frame, nrng[0]))
+                    if not (same(rv.field(0), E, GRID_EE) and rv.field(1) == Const(-1)):
+                        bad.append("the zero padding runs over %r..%r; specified e..-1" % (rv.field(0), rv.field(1)))
+                    push(s_, "PAD>" + nphase, tuple(want[k + 1:]))
+                    continue
+                want_clean = [a for a in want if a != ("PAD",)]
+                if ("PAD",) in want and not nrng:
+                    bad.append("%s: no zero padding between '0.' and the first digit" % phase)
+                if not same_atoms(out, want_clean):
+                    bad.append("%s: the segment prints %s; specified %s" % (phase, describe_out(merge(out)), describe_out(merge(want_clean))))
+                if True:
+                    e2 = h.it.read_ref(s_.store, Ref(s_.frame, nints[0])) if nints else None
+                    n2 = h.it.read_ref(s_.store, Ref(s_.frame, nuns[0])) if nuns else None
+                    if e2 is not None and not (same(e2, want_e, GRID_EE) or (nphase == "PLAIN" and e2 == Const(0))):
+                        bad.append("%s: the exponent becomes %r; specified %r" % (phase, e2, want_e))
+                    if n2 is not None and not same(n2, want_n, GRID_N):
+                        bad.append("%s: the budget becomes %r; specified %r" % (phase, n2, want_n))
+                if pulled and rem_now != h.it.read_ref(s_.store, rem_ref):
+                    bad.append("the remainder is written outside the generator")
+                push(s_, nphase)
+            elif s_.kind == "ret":
+                # the segment ends the function: whatever it still owes, then the epilogue
+                if pulled or (is_pad and pending):
+                    body_out, tail = out[:len(merge([a for a in want if a != ("PAD",)]))], None
+                want_clean = merge([a for a in want if a != ("PAD",)])
+                got = merge(out)
+                # split: the owed atoms come first, the epilogue after
+                head, tail = got[:len(want_clean)], got[len(want_clean):]
+                if want_clean and not same_atoms(head, want_clean):
+                    # a literal of the epilogue may have merged with the last owed literal: compare on the flattened text
+                    bad.append("%s: before the end %s is printed; specified %s" % (phase, describe_out(head), describe_out(want_clean)))
+                if n_pos is False and not pulled:
                     kinds.add("exit-budget")
                 elif z is True and not pulled:
                     kinds.add("exit-end")
-                elif not pulled:
-                    bad.append("the loop is left on path %s" % (s_.pc,))
-                    continue
+                elif pulled:
+                    kinds.add("exit-after-digit")
+                ph_end = nphase
                 nb = len(bad)
-                mark_check(s_, R, bad, "%s: at the end" % phase)
-                if len(bad) > nb and pulled:
+                s_.out = tuple(tail)
+                mark_check(s_, rem_now if pulled else R, bad, "%s: at the end" % ph_end, tail=tuple(tail))
+                if len(bad) > nb and pulled and not want_clean:
                     bad.append("(a digit was pulled and dropped before the mark was decided: %r)" % (pulled,))
-                rest = strip_mark(out)
-                if phase == "PLAIN":
+                rest = strip_mark(tuple(tail))
+                if ph_end == "PLAIN":
                     if rest:
                         bad.append("PLAIN: the end prints %s after the digits" % describe_out(rest))
-                elif phase in ("SCI1", "SCI2"):
-                    okexp = len(rest) == 2 and rest[0] == ("lit", "e") and rest[1][0] == "val" and rest[1][1] == E
+                elif ph_end in ("SCI1", "SCI2"):
+                    okexp = len(rest) == 2 and rest[0] == ("lit", "e") and rest[1][0] == "val" and same(rest[1][1], E, GRID_EE)
                     if not okexp:
-                        bad.append("%s: the end prints %s; specified 'e' exponent" % (phase, describe_out(rest)))
-                exits.append((phase, describe_out(out)))
+                        bad.append("%s: the end prints %s; specified 'e' exponent" % (ph_end, describe_out(rest)))
             else:
                 bad.append("%s %s" % (s_.kind, s_.value))
-        want_kinds = {"LEAD": {"lead-zero", "lead-sci", "lead-plain", "pad", "exit-budget"}, "SCI1": {"sci1", "exit-budget", "exit-end"},
-                      "SCI2": {"sci2", "exit-budget", "exit-end"}, "PLAIN": {"plain", "exit-budget", "exit-end"}}[phase]
-        if not want_kinds <= kinds:
-            bad.append("missing cases: %s" % sorted(want_kinds - kinds))
-        rep.ob("C08-R5", "step:%s:%s" % (phase, "".join("T" if x else "F" for x in fv)), not bad,
-               "; ".join(bad[:4]) if bad else "phase %s with flags %s: every case as the reference machine (%s)" % (phase, fv, ", ".join(sorted(kinds))),
-               body.site(), sample={"phase": phase, "flags": list(fv), "cases": sorted(kinds)})
-    rep.count("small-fraction path segments", n_steps)
-    phases = {p for _, p in seen}
-    rep.ob("C08-R5", "bisimulation", phases == {"LEAD", "SCI1", "SCI2", "PLAIN"},
-           "reachable (flag state, phase) pairs: %s" % sorted(("".join("T" if x else "F" for x in f_), p) for f_, p in seen), body.site())
+    rep.count("small-fraction path segments", n_seg)
+    for label in sorted(problems):
+        bad = problems[label]
+        rep.ob("C08-R5", "step:%s" % label.split("@")[0] if False else "step:%s" % label, not bad,
+               "; ".join(bad[:4]) if bad else "every segment from this state prints what the reference machine prescribes (%s)" % ", ".join(sorted(cases[label])),
+               body.site(), sample={"state": label, "cases": sorted(cases[label])})
+    allk = set().union(*cases.values()) if cases else set()
+    need = {"lead-zero", "lead-sci", "lead-plain", "sci1", "sci2", "plain", "pad-turn", "pad-exit", "exit-budget", "exit-end"}
+    rep.ob("C08-R5", "bisimulation", phases_seen == {"LEAD", "SCI1", "SCI2", "PLAIN"} and need <= allk,
+           "reachable phases %s; cases exercised %s%s" % (sorted(phases_seen), sorted(allk), "" if need <= allk else "; MISSING %s" % sorted(need - allk)), body.site())
 
 
 # ---- R6: the scientific form ---------------------------------------------------------------------------------------------
